@@ -227,3 +227,49 @@ Proof.
 Qed.
 
 Print Assumptions C09_remote_no_stuck_partial.
+
+(* --------------------------------------------------------------------------------------------------
+   (S3, second piece) no premise: every reachable state in which the link is down in ANY way - the TCP connection is
+   cut, or the boss has closed its end of the socket, or the doer's stdin is closed, or the doer process is gone - is
+   final or has a successor.  Proofs/RemoteSessionLinkDown.v: while the doer lives and its socket is broken some thread
+   of the doer can always move (blocked sends wake through receiver_alive / the dying threads, joins see their threads
+   end, the final write fails at once); with stdin closed the watchdog can move; with the doer gone
+   C09_remote_no_stuck_partial applies.  Corollaries named after the fault: _after_cut, _after_stdin_closed.
+   STILL MISSING for the full C09_remote_no_stuck: the states with the link UP (not cut, both socket ends open, stdin
+   open, doer alive) - fault-free runs and runs after a bad frame or an Error reply; this is where resp_ok and covered
+   are needed (C09_remote_needs_resp_ok / _needs_covered are such states).  Not proved. *)
+From RJ Require Proofs.RemoteSessionLinkDown Proofs.RemoteSessionWitness2.
+
+Theorem C09_remote_no_stuck_link_down : forall c x s, RemoteSession.reach c x s ->
+  RemoteSessionLinkDown.link_down s = true ->
+  RemoteSession.final s = true \/ exists s', RemoteSession.step c s s'.
+Proof. exact RemoteSessionLinkDown.no_stuck_link_down. Qed.
+
+Theorem C09_remote_no_stuck_after_cut : forall c x s, RemoteSession.reach c x s ->
+  RemoteSession.cut (RemoteSession.ev s) = true ->
+  RemoteSession.final s = true \/ exists s', RemoteSession.step c s s'.
+Proof.
+  intros c x s R H. apply (RemoteSessionLinkDown.no_stuck_link_down c x s R).
+  unfold RemoteSessionLinkDown.link_down. rewrite H. reflexivity.
+Qed.
+
+Theorem C09_remote_no_stuck_after_stdin_closed : forall c x s, RemoteSession.reach c x s ->
+  RemoteSession.stdin_open (RemoteSession.ev s) = false ->
+  RemoteSession.final s = true \/ exists s', RemoteSession.step c s s'.
+Proof.
+  intros c x s R H. apply (RemoteSessionLinkDown.no_stuck_link_down c x s R).
+  unfold RemoteSessionLinkDown.link_down. rewrite H. cbn [negb]. now rewrite orb_true_r.
+Qed.
+
+(* the premise is met by a non-final state: the connection cut while the boss's first command is on the wire *)
+Example C09_remote_example_cut_state : exists c x s,
+  RemoteSession.reach c x s /\ RemoteSession.cut (RemoteSession.ev s) = true /\ RemoteSession.final s = false /\
+  RemoteSession.dalive (RemoteSession.ev s) = true.
+Proof.
+  exists (RemoteSessionWitness.cfg 1000%N 0), RemoteSessionWitness2.sc_cut, RemoteSessionWitness2.s_cut.
+  destruct RemoteSessionWitness2.cut_state as (A & B & C & D & _). split; [exact A|]. split; [exact B|]. split; [exact C | exact D].
+Qed.
+
+Print Assumptions C09_remote_no_stuck_link_down.
+Print Assumptions C09_remote_no_stuck_after_cut.
+Print Assumptions C09_remote_no_stuck_after_stdin_closed.
